@@ -73,7 +73,7 @@ class AsyncEvent(Event):
 class NestedAsyncEvent(NestedEvent):
     transitions: DefaultDict[str, List[NestedAsyncTransition]]  # type: ignore
 
-    async def trigger_nested(self, event_data: AsyncEventData) -> bool: ...  # type: ignore[override]
+    async def trigger_nested(self, event_data: AsyncEventData, branch: Optional[str] = ...) -> bool: ...  # type: ignore[override]
     async def _process(self, event_data: AsyncEventData) -> bool: ...  # type: ignore[override]
 
 class AsyncMachine(Machine):
